@@ -32,19 +32,20 @@ Record st := mkst {
   barvis : bool;             (* _bottom_bar.visible *)
   modenr : Z;                (* 0 text, 1 = 320x200x4, 2 = 640x200x2 *)
   csw : bool;                (* display.colorswitch *)
+  vga : bool;                (* video adapter: false = cga, true = vga (SCREEN 7, 8, 9 exist) *)
   hist : list event          (* ghost *)
 }.
 
-Definition set_row s v := mkst v (col s) (ovf s) (bra s) (top s) (bot s) (act s) (width s) (height s) (cells s) (wraps s) (barvis s) (modenr s) (csw s) (hist s).
-Definition set_col s v := mkst (row s) v (ovf s) (bra s) (top s) (bot s) (act s) (width s) (height s) (cells s) (wraps s) (barvis s) (modenr s) (csw s) (hist s).
-Definition set_rc s r c := mkst r c (ovf s) (bra s) (top s) (bot s) (act s) (width s) (height s) (cells s) (wraps s) (barvis s) (modenr s) (csw s) (hist s).
-Definition set_ovf s v := mkst (row s) (col s) v (bra s) (top s) (bot s) (act s) (width s) (height s) (cells s) (wraps s) (barvis s) (modenr s) (csw s) (hist s).
-Definition set_bra s v := mkst (row s) (col s) (ovf s) v (top s) (bot s) (act s) (width s) (height s) (cells s) (wraps s) (barvis s) (modenr s) (csw s) (hist s).
-Definition set_area s t b a := mkst (row s) (col s) (ovf s) (bra s) t b a (width s) (height s) (cells s) (wraps s) (barvis s) (modenr s) (csw s) (hist s).
-Definition set_wraps s v := mkst (row s) (col s) (ovf s) (bra s) (top s) (bot s) (act s) (width s) (height s) (cells s) v (barvis s) (modenr s) (csw s) (hist s).
-Definition set_buf s c w h := mkst (row s) (col s) (ovf s) (bra s) (top s) (bot s) (act s) (width s) (height s) c w (barvis s) (modenr s) (csw s) h.
-Definition set_barvis s v := mkst (row s) (col s) (ovf s) (bra s) (top s) (bot s) (act s) (width s) (height s) (cells s) (wraps s) v (modenr s) (csw s) (hist s).
-Definition set_mode_fields s nr w cs := mkst (row s) (col s) (ovf s) (bra s) (top s) (bot s) (act s) w (height s) (cells s) (wraps s) (barvis s) nr cs (hist s).
+Definition set_row s v := mkst v (col s) (ovf s) (bra s) (top s) (bot s) (act s) (width s) (height s) (cells s) (wraps s) (barvis s) (modenr s) (csw s) (vga s) (hist s).
+Definition set_col s v := mkst (row s) v (ovf s) (bra s) (top s) (bot s) (act s) (width s) (height s) (cells s) (wraps s) (barvis s) (modenr s) (csw s) (vga s) (hist s).
+Definition set_rc s r c := mkst r c (ovf s) (bra s) (top s) (bot s) (act s) (width s) (height s) (cells s) (wraps s) (barvis s) (modenr s) (csw s) (vga s) (hist s).
+Definition set_ovf s v := mkst (row s) (col s) v (bra s) (top s) (bot s) (act s) (width s) (height s) (cells s) (wraps s) (barvis s) (modenr s) (csw s) (vga s) (hist s).
+Definition set_bra s v := mkst (row s) (col s) (ovf s) v (top s) (bot s) (act s) (width s) (height s) (cells s) (wraps s) (barvis s) (modenr s) (csw s) (vga s) (hist s).
+Definition set_area s t b a := mkst (row s) (col s) (ovf s) (bra s) t b a (width s) (height s) (cells s) (wraps s) (barvis s) (modenr s) (csw s) (vga s) (hist s).
+Definition set_wraps s v := mkst (row s) (col s) (ovf s) (bra s) (top s) (bot s) (act s) (width s) (height s) (cells s) v (barvis s) (modenr s) (csw s) (vga s) (hist s).
+Definition set_buf s c w h := mkst (row s) (col s) (ovf s) (bra s) (top s) (bot s) (act s) (width s) (height s) c w (barvis s) (modenr s) (csw s) (vga s) h.
+Definition set_barvis s v := mkst (row s) (col s) (ovf s) (bra s) (top s) (bot s) (act s) (width s) (height s) (cells s) (wraps s) v (modenr s) (csw s) (vga s) (hist s).
+Definition set_mode_fields s nr w cs := mkst (row s) (col s) (ovf s) (bra s) (top s) (bot s) (act s) w (height s) (cells s) (wraps s) (barvis s) nr cs (vga s) (hist s).
 
 (* ---- list helpers (Python list.insert / del / item assignment / negative index) *)
 Definition zn (z : Z) : nat := Z.to_nat z.
@@ -272,23 +273,34 @@ Definition show_bar (s : st) (on : bool) : st * res unit :=
 Definition set_mode (s : st) (nr w : Z) : st :=
   init_mode (b_reset (set_mode_fields s nr w false)).
 
-(* Display.screen(mode_nr, None, None, None) on cga; colorswitch becomes bool(None) = False *)
+(* width of the graphics mode nr; 0 = no such mode on this adapter (modes._MODES) *)
+Definition gfx_width (v : bool) (nr : Z) : Z :=
+  if nr =? 1 then 40 else if nr =? 2 then 80
+  else if v && (nr =? 7) then 40 else if v && ((nr =? 8) || (nr =? 9)) then 80 else 0.
+
+(* Display.screen(mode_nr, None, None, None); colorswitch becomes bool(None) = False *)
 Definition screen_stmt (s : st) (nr : Z) : st * res unit :=
   if negb (int16 nr) then (s, Err 6)
   else if negb (rng 0 255 nr) then (s, Err 5)
-  else if negb (rng 0 2 nr) then (s, Err 5)
+  else if negb (nr =? 0) && (gfx_width (vga s) nr =? 0) then (s, Err 5)
   else
-    let w := if nr =? 0 then (if width s =? 20 then 40 else width s) else if nr =? 1 then 40 else 80 in
+    let w := if nr =? 0 then (if width s =? 20 then 40 else width s) else gfx_width (vga s) nr in
     if negb (nr =? modenr s) || negb (w =? width s) || csw s then (set_mode s nr w, Ok tt)
     else (s, Ok tt).
+
+(* modes.TO_WIDTH for cga / vga *)
+Definition width_target (m w : Z) : Z :=
+  if m =? 0 then 0
+  else if (m =? 7) || (m =? 8) then (if w =? 40 then 7 else 8)
+  else if m =? 9 then (if w =? 40 then 1 else 9)
+  else (if w =? 40 then 1 else 2).
 
 (* Files.width_ for the screen -> Display.set_width *)
 Definition width_stmt (s : st) (w : Z) : st * res unit :=
   if negb (int16 w) then (s, Err 6)
   else if negb (rng 0 255 w) then (s, Err 5)
   else if w =? width s then (s, Ok tt)
-  else if (w =? 40) || (w =? 80) then
-    (set_mode s (if modenr s =? 0 then 0 else if w =? 40 then 1 else 2) w, Ok tt)
+  else if (w =? 40) || (w =? 80) then (set_mode s (width_target (modenr s) w) w, Ok tt)
   else (s, Err 5).
 
 (* Display.cls_ (no graphics viewport) *)
@@ -306,6 +318,19 @@ Definition cls (s : st) (v : option Z) : st * res unit :=
     else if is2 then (clear_view s, Ok tt)
     else if isn then (clear_view s, Ok tt)
     else (s, Ok tt).
+
+(* ---- the cursor keys of the line editor (Console._interact -> TextScreen.up/down/incr_pos/decr_pos, HOME,
+   CTRL+HOME) for single-byte codepages, where every character is one cell wide *)
+Definition edit_key (s : st) (k : Z) : st :=
+  if k =? 0 then set_pos s (row s - 1) (col s) false
+  else if k =? 1 then set_pos s (row s + 1) (col s) false
+  else if k =? 2 then set_pos s (row s) (col s + 1) false
+  else if k =? 3 then
+    let s := if ovf s then set_ovf (set_col s (col s + 1)) false else s in
+    set_pos s (row s) (col s - 1) false
+  else if k =? 4 then set_pos s 1 1 true
+  else if k =? 5 then clear_view s
+  else s.
 
 (* ---- Console.write *)
 Fixpoint write_spaces (s : st) (n : nat) : st :=
@@ -417,7 +442,8 @@ Inductive stmt :=
 | SKey (on : bool)
 | SScreen (nr : Z)
 | SScreenFn (r c : Z)          (* evaluate SCREEN(r, c) *)
-| STyped (str : list Z).       (* TextScreen.write_chars(str, do_scroll_down=True): overwrite-mode typing *)
+| STyped (str : list Z)        (* TextScreen.write_chars(str, do_scroll_down=True): overwrite-mode typing *)
+| SEdit (k : Z).               (* cursor key of the line editor: 0 up 1 down 2 right 3 left 4 HOME 5 CTRL+HOME *)
 
 Definition finish (sr : st * res unit) : st * list Z :=
   match snd sr with
@@ -444,14 +470,16 @@ Definition run_stmt (s : st) (x : stmt) : st * list Z :=
       | OutOfFuel => (s, [3; 0])
       end
   | STyped str => (write_chars true s str, [0; 0])
+  | SEdit k => (edit_key s k, [0; 0])
   end.
 
 Definition step (s : st) (x : stmt) : st := fst (run_stmt s x).
 Definition run (s : st) (l : list stmt) : st := fold_left step l s.
 
-(* Session start: 80x25 text mode, colorswitch 1, keys off *)
-Definition init_st : st :=
-  mkst 1 1 false false 1 24 false 80 25 (repeat (blank_row 80) 25) (repeat false 25) false 0 true [EReset].
+(* Session start: w x 25 text mode (text_width option), colorswitch 1, keys off, adapter cga or vga *)
+Definition init_with (w : Z) (v : bool) : st :=
+  mkst 1 1 false false 1 24 false w 25 (repeat (blank_row w) 25) (repeat false 25) false 0 true v [EReset].
+Definition init_st : st := init_with 80 false.
 
 (* ---- observation for the correspondence harness *)
 Definition grid_hash (cs : list (list Z)) : Z :=
@@ -477,6 +505,10 @@ Fixpoint rle_from (cur cnt : Z) (l : list Z) : list Z :=
   | c :: t => if c =? cur then rle_from cur (cnt + 1) t else cur :: cnt :: rle_from c 1 t
   end.
 Definition rle (l : list Z) : list Z := match l with [] => [] | c :: t => rle_from c 1 t end.
+
+Definition run_case_on (w : Z) (v : bool) (l : list stmt) : list Z :=
+  let sr := run_obs (init_with w v) l in
+  snd sr ++ rle (concat (cells (fst sr))) ++ map b2z (wraps (fst sr)).
 
 Definition run_case (l : list stmt) : list Z :=
   let sr := run_obs init_st l in
